@@ -229,6 +229,7 @@ type vH struct {
 	failSession int32
 	shortRound  int32
 	handlers    int32 // server handlers currently blocked or running
+	stuck       int32 // waits that timed out in this case
 }
 
 var vCur atomic.Value // *vH
@@ -391,10 +392,25 @@ func vInterceptor(h *vH, pid uint64) grpc.UnaryClientInterceptor {
 	}
 }
 
+// number of waits that timed out, in this case / in the whole run.  On the unchanged tree no wait
+// ever times out; once the implementation under test does not follow the protocol the executor
+// stops being patient (and gives up on the remaining cases after vGiveUp timeouts), so that a
+// check of a broken tree ends in minutes, not hours.
+var vStuckTotal int32
+
+const vGiveUp = 6
+
 func vWait(d time.Duration, cond func() bool) bool {
+	if h, ok := vCur.Load().(*vH); ok && h != nil && atomic.LoadInt32(&h.stuck) > 0 && d > 150*time.Millisecond {
+		d = 150 * time.Millisecond
+	}
 	end := time.Now().Add(d)
 	for !cond() {
 		if time.Now().After(end) {
+			if h, ok := vCur.Load().(*vH); ok && h != nil {
+				atomic.AddInt32(&h.stuck, 1)
+			}
+			atomic.AddInt32(&vStuckTotal, 1)
 			return false
 		}
 		time.Sleep(50 * time.Microsecond)
@@ -584,6 +600,9 @@ func (h *vH) run(cmds []string) {
 	}
 	// drain: answer everything that is still held, open every gate
 	end := time.Now().Add(20 * time.Second)
+	if atomic.LoadInt32(&h.stuck) > 0 {
+		end = time.Now().Add(2 * time.Second)
+	}
 	h.logf("drain")
 	for time.Now().Before(end) {
 		if op := h.takeSrv(0); op != nil {
@@ -644,6 +663,11 @@ func TestVerifRecorderProto(t *testing.T) {
 		}
 		seed, _ := strconv.ParseInt(f[1], 10, 64)
 		np, _ := strconv.ParseUint(f[2], 10, 64)
+		if atomic.LoadInt32(&vStuckTotal) >= vGiveUp {
+			fmt.Fprintf(w, "P begin %d\nP end skipped\n", caseNo)
+			caseNo++
+			continue
+		}
 		func() {
 			fmt.Fprintf(w, "P begin %d\n", caseNo)
 			status := "ok"
